@@ -22,6 +22,9 @@ def op_class(op):
 
 def qualifier(inv, case, ev):
     op = ev.get('op', '')
+    if inv == 'Reach' and op.startswith('init:'):
+        # built by insertions alone: every leg was evaluated (no removal closed a gap over an unreachable pair)
+        return 'construction'
     if inv == 'Reach':
         return 'pairwise-unreachable' if case.get('unreach_mode') == 'pairwise' else 'location-unreachable'
     if inv in ('LimitDistance', 'LimitDuration') and not case.get('metric', True) and (inv == 'LimitDistance' or case.get('travel_only')):
